@@ -316,7 +316,14 @@ func c02Body(r *Run) {
 				return err
 			})
 		} else {
-			hh = rig.Router.AddHandler(h.name, h.topic, h.sub, "out-"+h.name, h.pub, fn)
+			// (a fifth of the publishing handlers publish on the empty topic: a publisher that routes by metadata or
+			// has one fixed destination needs none, and the handler has a publisher all the same)
+			outTopic := "out-" + h.name
+			if r.T.Chance(1, 5) {
+				outTopic = ""
+				r.Probe("handler-with-publisher-and-empty-publish-topic")
+			}
+			hh = rig.Router.AddHandler(h.name, h.topic, h.sub, outTopic, h.pub, fn)
 		}
 		switch h.mp {
 		case mpPass:
